@@ -135,13 +135,16 @@ class C19(Spec):
     anchors = ["aesx.*"]
     harness = "c19"
     driver = "drv_aes"
+    shrink_sep = " ; "
     rule = ("one case = NewCipher(key, options) + Encrypt of a plaintext that is a 3-index window of a larger backing "
             "array (prefix, spare capacity, tail filled with sentinels) + Decrypt of the ciphertext placed in the same "
             "layout + 8 goroutines sharing the cipher; compared with the Lean FIPS-197 AES-CBC-PKCS7 / CFB-128: "
             "ciphertext, round trip, full backing arrays. distinct by script line; non-trivial = legal key and IV "
             "(the property's domain). `dec` lines (arbitrary ciphertexts) exercise pkcs5Trimming off the round-trip path. "
             "`big` lines: the same case for LARGE plaintexts (65535 .. 1 MiB, thorough up to 3 MiB, generated from a seed; "
-            "spare capacity 0, 1, pad-1, pad, 16, 64), ciphertext compared by length + FNV-1a hash")
+            "spare capacity 0, 1, pad-1, pad, 16, 64), ciphertext compared by length + FNV-1a hash. `seq` lines and the family `enc` "
+            "pairs: related keys (differing in the last byte / last 8 bytes / bytes 16.. / first byte / only in length), IVs and "
+            "modes used by several cipher objects alive in one process, older ciphers re-used after newer ones were created")
     trusted_base = [
         "crypto/aes, crypto/cipher: modelled by contract (block permutation E/D; CryptBlocks = CBC, XORKeyStream = CFB-128); "
         "checked on every case against the Lean FIPS-197 implementation (known-answer tests at driver start-up), and on "
@@ -170,6 +173,8 @@ class C19(Spec):
             return None  # arbitrary ciphertexts: outside the property (model fidelity only)
         if w[0] == "big" and len(w) == 8:
             return self.oracle_big(w, script, impl)
+        if script.startswith("seq | "):
+            return self.oracle_seq(script, impl)
         if w[0] != "enc" or len(w) != 7:
             return None
         mode, iv = parse_opts(w[1])
@@ -197,7 +202,7 @@ class C19(Spec):
             return ("concurrent-differs", "8 goroutines sharing the cipher did not reproduce the sequential answers")
         # independent implementations on deterministic samples of the cases: pure-Python FIPS-197 (1 case in 8, at most
         # 64 blocks) and the openssl command line tool when present
-        if hashlib.md5(script.encode()).digest()[1] < 32 and len(pt) <= 1024:
+        if (hashlib.md5(script.encode()).digest()[1] < 32 and len(pt) <= 1024) or len(pt) <= 48:
             self.pyaes_checked += 1
             want_ct = py_aes_encrypt(mode, key, iv, pt)
             if want_ct != ct:
@@ -213,6 +218,42 @@ class C19(Spec):
                     return ("not-standard", "ciphertext differs from `openssl enc %s`: %s vs %s" % (alg, f[1][:80], p.stdout.hex()[:80]))
             except Exception:
                 pass
+        return None
+
+    def oracle_seq(self, script, impl):
+        """several ciphers alive in one process: every `use` must give the standard ciphertext for the key/IV/mode of ITS
+        cipher (pure-Python FIPS-197, every use) and round-trip, whatever other ciphers were created before or after"""
+        ops = script[6:].split(" ; ")
+        toks = impl.split()
+        if len(toks) != len(ops):
+            return ("malformed", "unexpected harness output: " + impl[:200])
+        env = {}
+        for op, tok in zip(ops, toks):
+            w = op.split()
+            if len(w) == 4 and w[0] == "new":
+                mode, iv = parse_opts(w[2])
+                key = unhex(w[3])
+                if len(key) in (16, 24, 32):
+                    env[w[1]] = (mode, iv, key)
+                    if tok != "n:ok":
+                        return ("panic", "NewCipher failed for a legal key: " + tok)
+                else:
+                    env.pop(w[1], None)
+            elif len(w) == 3 and w[0] == "use" and w[1] in env:
+                mode, iv, key = env[w[1]]
+                if len(iv) != 16:
+                    continue
+                pt = unhex(w[2])
+                f = tok.split(":")
+                if len(f) != 3 or f[0] != "u":
+                    return ("panic", "Encrypt/Decrypt on cipher %s (legal key/IV) gave %s" % (w[1], tok))
+                if f[2] != "same":
+                    return ("roundtrip", "cipher %s: Decrypt(Encrypt(p)) != p: p=%s got %s" % (w[1], w[2], f[2]))
+                self.pyaes_checked += 1
+                want = py_aes_encrypt(mode, key, iv, pt)
+                if unhex(f[1]) != want:
+                    return ("not-standard", "cipher %s (AES-%d-%s, key %s): ciphertext %s is not the standard one %s — another cipher "
+                            "object created in the same process changed the answer" % (w[1], len(key) * 8, mode.upper(), key.hex(), f[1][:64], want.hex()[:64]))
         return None
 
     def oracle_big(self, w, script, impl):
@@ -266,6 +307,8 @@ class C19(Spec):
         return None
 
     def nontrivial(self, script, impl):
+        if script.startswith("seq | "):
+            return True
         w = script.split()
         if w[0] == "big" and len(w) == 8:
             return len(unhex(w[2])) in (16, 24, 32) and len(parse_opts(w[1])[1]) == 16
